@@ -86,12 +86,17 @@ def run(ctx, rep) -> None:
     rep.rule("C08.2", "an absent DTensor gradient yields None; to_local() is applied only to present gradients")
     rep.rule("C08.3", "HybridShard distribution: collective uniformity, buffer protocol, index spaces, re-masking, agreement with the DDP / HSDP copies")
     rep.rule("C08.4", "FullyShard and HybridShard copies agree")
-    filter_agreement(ctx, rep, "C08.1")
-    collective_uniformity(ctx, rep, "C08.3", {"HybridShardDistributor"})
-    buffer_protocol(ctx, rep, "C08.3", HYB)
-    typing_sites(ctx, rep, "C08.3", {"distributed_shampoo.utils.shampoo_hybrid_shard_distributor", "distributed_shampoo.utils.shampoo_fully_shard_distributor", "distributed_shampoo.utils.shampoo_distributor"}, {"distributed_shampoo.utils.shampoo_hybrid_shard_distributor": 8})
-    _dist_remask(ctx, rep, "C08.3", HYB)
-    _dist_remask(ctx, rep, "C08.3", FULLY, 2)
-    sibling_pairs(ctx, rep, "C08.3", [p for p in dist_pairs() if HYB in p[:2]])
-    sibling_pairs(ctx, rep, "C08.4", [(FULLY, HYB, "_get_params_or_grads"), (FULLY, HYB, "_construct_composable_block_ids")])
+    rep.attempt("filter_agreement", filter_agreement, ctx, rep, "C08.1")
+    rep.attempt("collective_uniformity", collective_uniformity, ctx, rep, "C08.3", {"HybridShardDistributor"})
+    rep.attempt("buffer_protocol", buffer_protocol, ctx, rep, "C08.3", HYB)
+    from .c14 import assignment_determinism, buffer_views, ownership
+
+    rep.attempt("ownership", ownership, ctx, rep, "C08.3", [HYB])
+    rep.attempt("assignment_determinism", assignment_determinism, ctx, rep, "C08.3", [HYB])
+    rep.attempt("buffer_views", buffer_views, ctx, rep, "C08.3", [HYB])
+    rep.attempt("typing_sites", typing_sites, ctx, rep, "C08.3", {"distributed_shampoo.utils.shampoo_hybrid_shard_distributor", "distributed_shampoo.utils.shampoo_fully_shard_distributor", "distributed_shampoo.utils.shampoo_distributor"}, {"distributed_shampoo.utils.shampoo_hybrid_shard_distributor": 8})
+    rep.attempt("_dist_remask", _dist_remask, ctx, rep, "C08.3", HYB)
+    rep.attempt("_dist_remask", _dist_remask, ctx, rep, "C08.3", FULLY, 2)
+    rep.attempt("sibling_pairs", sibling_pairs, ctx, rep, "C08.3", [p for p in dist_pairs() if HYB in p[:2]])
+    rep.attempt("sibling_pairs", sibling_pairs, ctx, rep, "C08.4", [(FULLY, HYB, "_get_params_or_grads"), (FULLY, HYB, "_construct_composable_block_ids")])
     rep.assume("numerical equality with the serial optimizer is NOT decided")
